@@ -245,6 +245,7 @@ func checkC19(p *Prog, l *Ledger) {
 	}
 	// ---- S1/S4 of C08: run interprets only when no syntax error was flagged
 	checkRunPipeline(p, l, "C19/S1-pipeline")
+	checkWholeText(p, l, "C19/S1-pipeline")
 	// ---- lexical errors are classified 65 only if the scanner sees them: unterminated comments and strings are
 	// reported exactly when the input ends inside one, and a comment or string ends exactly where the language says
 	if run := exploreScanToken(p); run != nil {
@@ -261,6 +262,10 @@ func checkC19(p *Prog, l *Ledger) {
 	// status 65 iff a syntax error: the parser's reporter writes its diagnostic and raises the flag on its only path (the
 	// `error` primitive of C08/S0) — a reporter that stays silent for some position lets a rejected text run
 	l.AsOnlyWhere(map[string]string{"C08/S0-cursor-primitives": "C19/S2-status-65/reported"}, func(o *Obligation) bool { return o.Construct == "Parser.error" }, func() { checkParserPrimitives(p, l, "C08/S0-cursor-primitives") })
+	// … and every rejection goes through that primitive: an error value made anywhere else in the parser (or a lexical
+	// error path that does not report) rejects the text silently — main sees no flag, runs what was parsed so far and
+	// ends with status 0 (C08's origin rule)
+	l.AsOnly(map[string]string{"C08/S4-flagged": "C19/S2-status-65/every-rejection-reported"}, func() { checkErrorOrigin(p, l, nil) })
 	// 65 iff a lexical error: the scanner sees the whole text — its cursor primitives end the input at the end of the text,
 	// nowhere else (C09's primitive rule: a NUL sentinel would end a script at the first U+0000)
 	l.AsOnly(map[string]string{"C09/S0-cursor-primitives": "C19/S1-lexical-errors/cursor-primitives"}, func() { checkLexPrimitives(p, l, "C09/S0-cursor-primitives") })
@@ -274,6 +279,49 @@ func checkC19(p *Prog, l *Ledger) {
 	checkStreams(p, l)
 	// ---- S4
 	checkInputBuiltin(p, l)
+}
+
+// checkWholeText: what runFile hands to run() is the content of the file as one text — the result of one whole-file read,
+// converted to a string (and at most to runes) in one piece.  A text assembled from separately decoded pieces is not the
+// text the user wrote wherever a character straddles two pieces (a Bangla digit is three bytes long).
+func checkWholeText(p *Prog, l *Ledger, rule string) {
+	_, ws, _ := exploreMain(p, l, "main.runFile")
+	if ws == nil {
+		return
+	}
+	reWhole := regexp.MustCompile(`^(conv:\[\]rune\()?conv:string\((io[^ ()]*)#0\)\)?$`)
+	n := 0
+	var bad []string
+	pos := ""
+	for _, w := range ws {
+		reads := map[string]string{} // result name → library function
+		for _, e := range w {
+			if e.Op == "io" {
+				reads[e.KV["res"]] = e.KV["fn"]
+			}
+			if e.Op != "call" || e.Args[0] != "main.run" || len(e.Args) < 2 {
+				continue
+			}
+			n++
+			pos = e.Pos
+			mm := reWhole.FindStringSubmatch(e.Args[1])
+			switch {
+			case mm == nil:
+				bad = append(bad, "run() is given "+e.Args[1]+", not the file's content converted in one piece")
+			case reads[mm[2]] != "os.ReadFile" && reads[mm[2]] != "io.ReadAll" && reads[mm[2]] != "io/ioutil.ReadFile":
+				bad = append(bad, "the text comes from "+reads[mm[2]]+", which is not a read of the whole file")
+			}
+		}
+	}
+	bad = uniqStrings(sortStrings(bad))
+	switch {
+	case n == 0:
+		l.Violate(rule, "main.runFile#source", "", "runFile never calls run()")
+	case len(bad) > 0:
+		l.Violate(rule, "main.runFile#source", pos, strings.Join(bad, " || ")+": a character that straddles two separately decoded pieces is not the character the user wrote")
+	default:
+		l.Discharge(rule, "main.runFile#source", pos, "the script is the whole file, read once and converted in one piece", true)
+	}
 }
 
 // checkRunPipeline: in run(), Interpret is called only after ScanTokens and Parse and on the false edge of a HadError test.
